@@ -148,7 +148,10 @@ def _check_dims(
         if cls_dim is _anonymous_dim:
             pass
         elif cls_dim.broadcastable and obj_size == 1:
-            pass
+            if type(cls_dim) is _NamedDim and cls_dim.treepath:
+                # `?` axes are only meaningful inside a structured PyTree: raise the
+                # same error as for sizes other than one.
+                get_treepath_memo()
         elif type(cls_dim) is _FixedDim:
             if cls_dim.size != obj_size:
                 return f"the dimension size {obj_size} does not equal {cls_dim.size} as expected by the type hint"  # noqa: E501
